@@ -96,6 +96,10 @@ class Raised(Exception):
         self.cls = cls
 
 
+class SetV(ListV):
+    """a set / frozenset of known elements: membership needs a hashable left side"""
+
+
 _SENTINELS: Dict[Tuple[str, str], Tuple[str, str, str]] = {}
 _DUNDER = {ast.BitOr: "__or__", ast.BitAnd: "__and__", ast.Sub: "__sub__", ast.Mult: "__mul__"}
 
@@ -177,6 +181,24 @@ class TermAlg:
         ci = self.prog.classes.get(cname)
         if ci is None:
             raise AnalysisError("unknown class %s" % cname)
+        if any(norm(b).split(".")[-1] == "NamedTuple" for b in ci.node.bases) and self.prog.resolve_method(cname, "__new__") is None:
+            # a record of named fields: a tuple whose items are also read by name
+            names = [n for n, _d in ci.fields]
+            if len(pos) > len(names):
+                raise Raised("TypeError")
+            vals: Dict[str, Any] = dict(zip(names, pos))
+            for k, v in kw.items():
+                if k not in names or k in vals:
+                    raise Raised("TypeError")
+                vals[k] = v
+            for n, d in ci.fields:
+                if n not in vals:
+                    if d is None:
+                        raise Raised("TypeError")
+                    vals[n] = self.eval(d, {})
+            tv = TupV([vals[n] for n in names])
+            tv.names = names
+            return tv
         ob = Rec(cname)
         init = self.prog.resolve_method(cname, "__init__")
         if init is not None:
@@ -231,6 +253,9 @@ class TermAlg:
             c = v.as_const()
             if c is not None:
                 return c != 0
+            # generic symbols (as for ==): an expression that is not identically zero is not zero; the laws add the
+            # concrete zero cases themselves
+            return not v.is_zero()
         if isinstance(v, tuple) and v and v[0] == "str":
             return v[1] != ""
         raise Undecidable("cannot decide the truth of %s in %s" % (norm(node) if node is not None else v, self.fstack[-1].key))
@@ -345,6 +370,19 @@ class TermAlg:
             return
         if isinstance(t, (ast.Tuple, ast.List)):
             items = v.items if isinstance(v, (TupV, ListV)) else None
+            stars = [k for k, e in enumerate(t.elts) if isinstance(e, ast.Starred)]
+            if items is not None and len(stars) == 1 and len(items) >= len(t.elts) - 1:
+                # a, *rest, z = items
+                k = stars[0]
+                tail = len(t.elts) - 1 - k
+                for e, x in zip(t.elts[:k], items[:k]):
+                    self.assign(e, x, env)
+                self.assign(t.elts[k].value, ListV(list(items[k: len(items) - tail])), env)
+                for e, x in zip(t.elts[k + 1:], items[len(items) - tail:]):
+                    self.assign(e, x, env)
+                return
+            if items is not None and len(items) != len(t.elts) and not stars:
+                raise Raised("ValueError")  # too many / not enough values to unpack
             if items is None or len(items) != len(t.elts):
                 raise AnalysisError("cannot unpack in %s" % self.fstack[-1].key)
             for e, x in zip(t.elts, items):
@@ -403,17 +441,21 @@ class TermAlg:
             r = self.prog.resolve_name(fi.module, e.id)
             if r is not None:
                 return r
+        if fi is not None and e.id in fi.module.assigns and isinstance(fi.module.assigns[e.id], ast.Call) and norm(fi.module.assigns[e.id].func).startswith("logging."):
+            return ("logger",)  # logger = logging.getLogger(__name__): calls on it are ignored like logging.debug(...)
         if fi is not None and e.id in fi.module.assigns and isinstance(fi.module.assigns[e.id], ast.Call) and norm(fi.module.assigns[e.id].func) == "object" and not fi.module.assigns[e.id].args:
             # a module-level sentinel `_MISSING = object()`: one value, equal only to itself
             return _SENTINELS.setdefault((fi.module.name, e.id), ("sentinel", fi.module.name, e.id))
-        if fi is not None and e.id in fi.module.assigns and isinstance(fi.module.assigns[e.id], (ast.Tuple, ast.List, ast.Constant, ast.Dict)):
+        if fi is not None and e.id in fi.module.assigns and isinstance(fi.module.assigns[e.id], ast.Call) and norm(fi.module.assigns[e.id].func) in ("frozenset", "set", "tuple", "list") and len(fi.module.assigns[e.id].args) <= 1 and all(isinstance(a_, (ast.Tuple, ast.List, ast.Set)) for a_ in fi.module.assigns[e.id].args):
+            return self.eval(fi.module.assigns[e.id], {})
+        if fi is not None and e.id in fi.module.assigns and isinstance(fi.module.assigns[e.id], (ast.Tuple, ast.List, ast.Constant, ast.Dict, ast.Set)):
             # a constant table / literal of the module
             return self.eval(fi.module.assigns[e.id], {})
         if e.id == "open":
             return ("extmod", "builtins.open")
         if e.id == "print":
             return ("ignore",)  # writes to the terminal: no value, no effect on the records
-        if e.id in ("float", "int", "str", "list", "len", "isinstance", "abs", "enumerate", "sorted", "dict", "type", "all", "any", "zip", "range", "bool", "tuple", "set", "next", "iter", "reversed", "min", "max", "sum"):
+        if e.id in ("float", "int", "str", "list", "len", "isinstance", "abs", "enumerate", "sorted", "dict", "type", "all", "any", "zip", "range", "bool", "tuple", "set", "next", "iter", "reversed", "min", "max", "sum", "frozenset", "format"):
             return ("builtin", e.id)
         if e.id in ("product", "reduce", "map"):
             return ("builtin", e.id)
@@ -434,18 +476,27 @@ class TermAlg:
                     return self.call(fi, [], {}, self_val=b)
                 return ("bound", b, fi)
             raise AnalysisError("unknown attribute %s.%s" % (b.cls, e.attr))
+        if isinstance(b, TupV) and e.attr in getattr(b, "names", ()):
+            return b.items[b.names.index(e.attr)]
         if isinstance(b, tuple) and b and b[0] == "extmod":
             return ("extmod", b[1] + "." + e.attr)
         if isinstance(b, LinV):
             return ("linm", b, e.attr)
         if isinstance(b, DictV):
             return ("dictm", b, e.attr)
+        if isinstance(b, ListV) and e.attr == "shape":
+            # a list standing for a numpy array: its dimensions
+            if b.items and all(isinstance(r_, ListV) for r_ in b.items):
+                return TupV([num(len(b.items)), num(len(b.items[0].items))])
+            return TupV([num(len(b.items))])
         if isinstance(b, ListV):
             return ("listm", b, e.attr)
         if b.__class__.__name__ == "ClassInfo":
             fi = self.prog.resolve_method(b.name, e.attr)
             if fi is not None:
                 return ("unbound", b.name, fi)
+        if b == ("logger",):
+            return ("ignore",)
         if b.__class__.__name__ == "ModInfo":
             r = self.prog.resolve_dotted(b.name + "." + e.attr)
             if r is not None:
@@ -494,8 +545,7 @@ class TermAlg:
         return ListV([self.eval(x, env) for x in e.elts])
 
     def x_Set(self, e, env):
-        # a set display is only ever asked `x in {...}` / iterated here: a list of its elements does
-        return ListV([self.eval(x, env) for x in e.elts])
+        return SetV([self.eval(x, env) for x in e.elts])
 
     def x_Dict(self, e, env):
         d = DictV()
@@ -516,7 +566,23 @@ class TermAlg:
             if isinstance(v, Rat) and v.as_const() is not None and isinstance(fs, ast.JoinedStr) and len(fs.values) == 1 and isinstance(fs.values[0], ast.Constant):
                 # a literal format applied to a literal number: constant folding
                 return ("str", format(float(v.as_const()), fs.values[0].value))
-        return ("str", "?")
+        # the general case: the literal pieces and the texts of the values, one after the other
+        out = ""
+        for part in e.values:
+            if isinstance(part, ast.Constant) and isinstance(part.value, str):
+                out += part.value
+                continue
+            if not isinstance(part, ast.FormattedValue) or part.conversion not in (-1, 115):
+                return ("str", "?")
+            v = self.eval(part.value, env)
+            fs = part.format_spec
+            if fs is None:
+                out += self.text_of(v)
+            elif isinstance(v, Rat) and v.as_const() is not None and isinstance(fs, ast.JoinedStr) and len(fs.values) == 1 and isinstance(fs.values[0], ast.Constant):
+                out += format(float(v.as_const()), fs.values[0].value)
+            else:
+                return ("str", "?")
+        return ("str", out)
 
     def text_of(self, v) -> str:
         if isinstance(v, Rat):
@@ -695,6 +761,10 @@ class TermAlg:
         r = self.eval(e.comparators[0], env)
         op = e.ops[0]
         if isinstance(op, (ast.In, ast.NotIn)):
+            if isinstance(r, SetV) and isinstance(l, (ListV, DictV)) and not isinstance(l, TupV):
+                raise Raised("TypeError")  # unhashable value looked up in a set
+            if isinstance(r, DictV) and isinstance(l, (ListV, DictV)) and not isinstance(l, TupV):
+                raise Raised("TypeError")  # unhashable value looked up in a dict
             if isinstance(r, (ListV, TupV)):
                 res = any(self.same(l, x) for x in r.items)
             elif isinstance(r, DictV):
@@ -778,6 +848,72 @@ class TermAlg:
                     a[r] = [x - f * y for x, y in zip(a[r], a[col])]
         return ListV([a[i][n] for i in range(n)])
 
+    def lstsq(self, m, v) -> "TupV":
+        """numpy.linalg.lstsq: for a square matrix that is invertible the solution of the system; otherwise, on
+        numbers, the least-squares solution of smallest norm (pseudo-inverse through a full-rank factorisation, in exact
+        rationals) - which solves nothing exactly when the system has no solution."""
+        if not (isinstance(m, ListV) and isinstance(v, ListV) and m.items and all(isinstance(r, ListV) for r in m.items)):
+            raise AnalysisError("numpy.linalg.lstsq on something that is not a matrix of numbers")
+        rows, n = len(m.items), len(m.items[0].items)
+        if any(len(r.items) != n for r in m.items) or len(v.items) != rows:
+            raise Raised("LinAlgError")
+        if rows == n:
+            try:
+                x = self.linsolve(m, v)
+                return TupV([x, ListV([]), num(n), ListV([])])
+            except Raised:
+                pass
+        a = [[x.as_const() if isinstance(x, Rat) else None for x in r.items] for r in m.items]
+        b = [x.as_const() if isinstance(x, Rat) else None for x in v.items]
+        if any(x is None for r in a for x in r) or any(x is None for x in b):
+            raise AnalysisError("numpy.linalg.lstsq on a symbolic system without an exact solution")
+        # reduced row echelon form -> pivot columns
+        red = [list(r) for r in a]
+        piv: List[int] = []
+        r0 = 0
+        for col in range(n):
+            pr = next((r for r in range(r0, rows) if red[r][col] != 0), None)
+            if pr is None:
+                continue
+            red[r0], red[pr] = red[pr], red[r0]
+            pv_ = red[r0][col]
+            red[r0] = [x / pv_ for x in red[r0]]
+            for r in range(rows):
+                if r != r0 and red[r][col] != 0:
+                    f_ = red[r][col]
+                    red[r] = [x - f_ * y for x, y in zip(red[r], red[r0])]
+            piv.append(col)
+            r0 += 1
+        rank = len(piv)
+        if rank == 0:
+            return TupV([ListV([num(0) for _ in range(n)]), ListV([]), num(0), ListV([])])
+        C = [[a[r][c] for c in piv] for r in range(rows)]  # rows x rank
+        F = [red[k] for k in range(rank)]  # rank x n
+
+        def mul(X, Y):
+            return [[sum(X[i][k] * Y[k][j] for k in range(len(Y))) for j in range(len(Y[0]))] for i in range(len(X))]
+
+        def tr(X):
+            return [list(c) for c in zip(*X)]
+
+        def inv(X):
+            k = len(X)
+            aug = [list(X[i]) + [Fraction(int(i == j)) for j in range(k)] for i in range(k)]
+            for c in range(k):
+                pr = next(r for r in range(c, k) if aug[r][c] != 0)
+                aug[c], aug[pr] = aug[pr], aug[c]
+                d = aug[c][c]
+                aug[c] = [x / d for x in aug[c]]
+                for r in range(k):
+                    if r != c and aug[r][c] != 0:
+                        f_ = aug[r][c]
+                        aug[r] = [x - f_ * y for x, y in zip(aug[r], aug[c])]
+            return [row[k:] for row in aug]
+
+        pinv = mul(mul(tr(F), inv(mul(F, tr(F)))), mul(inv(mul(tr(C), C)), tr(C)))
+        x = [sum(pinv[i][k] * b[k] for k in range(rows)) for i in range(n)]
+        return TupV([ListV([num(q) for q in x]), ListV([]), num(rank), ListV([])])
+
     def struct_eq(self, a, b) -> bool:
         """Structural equality of symbolic values (what == means for terms: same keys, identical coefficients)."""
         if a is b:
@@ -839,6 +975,11 @@ class TermAlg:
         f = self.eval(e.func, env) if not (isinstance(e.func, ast.Attribute) and norm(e.func).startswith("logging.")) else ("ignore",)
         if f == ("ignore",):
             return NONE
+        if isinstance(f, tuple) and f == ("builtin", "isinstance") and len(e.args) == 2 and isinstance(e.args[1], ast.Name) and self.fstack and e.args[1].id not in env:
+            # the kinds named through a module-level constant: `_SYMBOL_TYPES = (str, sympy.Symbol)`
+            lit = self.fstack[-1].module.assigns.get(e.args[1].id)
+            if isinstance(lit, (ast.Tuple, ast.Name, ast.Attribute)):
+                e = ast.Call(func=e.func, args=[e.args[0], lit], keywords=[])
         if isinstance(f, tuple) and f == ("builtin", "isinstance") and len(e.args) == 2 and isinstance(e.args[1], ast.Tuple):
             v0 = self.eval(e.args[0], env)
             tname = norm(e.args[1])
@@ -857,8 +998,22 @@ class TermAlg:
                 root = root.value
             if isinstance(root, ast.Name) and isinstance(e.args[1], ast.Attribute) and self.fstack and root.id in self.fstack[-1].module.imports and not self.fstack[-1].module.imports[root.id].startswith("pacti"):
                 return False  # a third-party type (sympy Float, pp.ParseResults): our symbolic values are not instances of it
-        pos = [self.eval(a, env) for a in e.args]
-        kw = {k.arg: self.eval(k.value, env) for k in e.keywords}
+        pos = []
+        for a in e.args:
+            if isinstance(a, ast.Starred):
+                pos.extend(self.iterate(self.eval(a.value, env), a.value))  # f(*xs)
+            else:
+                pos.append(self.eval(a, env))
+        kw = {}
+        for k in e.keywords:
+            if k.arg is None:
+                dv = self.eval(k.value, env)  # f(**d)
+                if not isinstance(dv, DictV):
+                    raise AnalysisError("** of %s" % norm(k.value))
+                for kk, vv in dv.d.items():
+                    kw[kk[1] if isinstance(kk, tuple) else getattr(kk, "name", kk)] = vv
+            else:
+                kw[k.arg] = self.eval(k.value, env)
         if isinstance(f, FuncInfo):
             return self.call(f, pos, kw)
         if f.__class__.__name__ == "ClassInfo":
@@ -909,8 +1064,10 @@ class TermAlg:
                     if cd is not None and cb is not None:
                         return abs(cd) <= Fraction(1, 10**8) + Fraction(1, 10**5) * abs(cb)
                     return False  # generic symbols: not within a tolerance of each other
-                if f[1] == "numpy.linalg.solve" and len(pos) == 2:
+                if f[1] in ("numpy.linalg.solve", "scipy.linalg.solve") and len(pos) == 2:
                     return self.linsolve(pos[0], pos[1])
+                if f[1] in ("numpy.linalg.lstsq", "scipy.linalg.lstsq") and len(pos) >= 2:
+                    return self.lstsq(pos[0], pos[1])
                 if f[1].endswith("sympy.symbols") and pos and isinstance(pos[0], tuple) and pos[0][0] == "str":
                     return LinV({Key(pos[0][1]): num(1)})
                 raise AnalysisError("external call %s outside the kernel fragment in %s" % (f[1], self.fstack[-1].key))
@@ -1017,7 +1174,13 @@ class TermAlg:
                     if len(pos) > 1:
                         return pos[1]
                     raise Raised("StopIteration")
-                if n in ("iter", "tuple", "reversed", "set") and len(pos) == 1:
+                if n == "format" and len(pos) == 2 and isinstance(pos[0], Rat) and pos[0].as_const() is not None and isinstance(pos[1], tuple) and pos[1][0] == "str" and "?" not in pos[1][1]:
+                    return ("str", format(float(pos[0].as_const()), pos[1][1]))
+                if n == "format":
+                    return ("str", "?")
+                if n in ("set", "frozenset"):
+                    return SetV(list(self.iterate(pos[0], e)) if pos else [])
+                if n in ("iter", "tuple", "reversed") and len(pos) == 1:
                     items_ = list(self.iterate(pos[0], e))
                     return ListV(items_[::-1] if n == "reversed" else items_)
                 if n == "sum" and pos:
